@@ -20,7 +20,7 @@ REQUIRED_THEOREMS = [
     "volLap_symmetric", "volLap_row_sums_zero", "blocks_quad_nonneg", "lapEdges_block", "lapEdges_symmetric", "lapEdges_row_sums_zero", "lapTet_row_sums_zero", "graphLap_eq_D_sub_A", "graphLap_symmetric", "graphLap_row_sums_zero", "adjacency_symmetric",
     "adjacency_entries", "vertexToEdge_column", "vertexToFace_entries", "mass_diagonal", "mass_nonneg", "mass_total",
     "mass_pos", "mass_total_triangles", "mass_total_tets", "diagMass_total", "massEdges_total", "edgeFaceIncidence_of_manifold", "massEdges_total_of_manifold", "directFace_eq_iff", "edgeFaceList_in_range", "massEdges_total_le_partial", "massEdges_diagonal", "rowSum_eq_sum_toFun",
-    "hatGrad_partition", "grad_affine", "grad_dot_eq_cot", "grad_coords", "oppLocal_is_corner", "oppLocal_bridge", "lapLoop_bridge",
+    "hatGrad_partition", "grad_affine", "grad_dot_eq_cot", "grad_coords", "oppLocal_is_corner", "oppLocal_bridge", "lapLoop_bridge", "lapWrites_perm", "lapWrites_bridge",
 ]
 TRUSTED = [
     "Lean 4.33.0 kernel; axioms ⊆ {propext, Classical.choice, Quot.sound}",
@@ -63,13 +63,33 @@ def _try(fn):
         return f"err:Other({type(e).__name__})"
 
 
-def observe(kind, V, X, extra):
+FORMATS = ["csr", "coo", "lil", "dia"]
+
+
+def observe(kind, V, X, extra, rep="vec", mesh=None, mutate=False):
+    """all operators with all options on one mesh. `mesh`: build on this (already used) mesh object; `mutate`: after converting each
+    returned matrix to a value record, overwrite its stored coefficients in place (a later build must not see that)."""
     import mouette as M
     O = M.operators
     out = {}
-    if kind == "surf": m = G.build_surface({"V": V, "F": X})
-    elif kind == "vol": m = G.build_volume({"V": V, "C": X})
-    else: m = G.build_polyline({"V": V, "E": X})
+    m = mesh if mesh is not None else U.build_mesh(kind, V, X, rep)
+    nV0 = len(m.vertices)
+    V_before = [[float(c) for c in m.vertices[i]] for i in range(nV0)]
+
+    def _try(fn):
+        try:
+            Mx = fn()
+            rec = _sp(Mx)
+            if mutate:
+                try:
+                    if hasattr(Mx, "data") and isinstance(Mx.data, np.ndarray): Mx.data[...] = 12345.0
+                    else:
+                        Mx[0, 0] = 12345.0
+                except Exception:  # noqa
+                    pass
+            return rec
+        except Exception as e:  # noqa
+            return f"err:Other({type(e).__name__})"
     E = [(int(a), int(b)) for a, b in m.edges]
     out["E"] = [list(e) for e in E]
     out["glap"] = _try(lambda: O.graph_laplacian(m))
@@ -82,8 +102,11 @@ def observe(kind, V, X, extra):
     out["adj_dict"] = _try(lambda: O.adjacency_matrix(m, weights=wd))
     out["v2e"] = _try(lambda: O.vertex_to_edge_operator(m))
     out["v2e_or"] = _try(lambda: O.vertex_to_edge_operator(m, oriented=True))
-    if kind == "poly":
+    def done():
+        if [[float(c) for c in m.vertices[i]] for i in range(nV0)] != V_before: out["_alias"] = ["mesh:vertex-coordinates-modified"]
         return out
+    if kind == "poly":
+        return done()
     if kind == "vol":
         out["vlap"] = _try(lambda: O.volume_laplacian(m))
         out["ltet"] = _try(lambda: O.laplacian_tetrahedra(m))
@@ -91,7 +114,10 @@ def observe(kind, V, X, extra):
             for sq in (False, True):
                 out[f"vm_{int(inv)}{int(sq)}"] = _try(lambda: O.volume_weight_matrix(m, inverse=inv, sqrt=sq))
                 out[f"vmc_{int(inv)}{int(sq)}"] = _try(lambda: O.volume_weight_matrix_cells(m, inverse=inv, sqrt=sq))
-        return out
+        for fmt in FORMATS:
+            out[f"vm_fmt_{fmt}"] = _try(lambda: O.volume_weight_matrix(m, format=fmt))
+            out[f"vmc_fmt_{fmt}"] = _try(lambda: O.volume_weight_matrix_cells(m, format=fmt))
+        return done()
     out["lap_cot"] = _try(lambda: O.laplacian(m, cotan=True))
     out["lap_uni"] = _try(lambda: O.laplacian(m, cotan=False))
     out["ced_inv"] = _try(lambda: O.cotan_edge_diagonal(m, inverse=True))
@@ -114,14 +140,25 @@ def observe(kind, V, X, extra):
         out[f"amf_{int(inv)}"] = _try(lambda: O.area_weight_matrix_faces(m, inverse=inv))
         out[f"ame_{int(inv)}"] = _try(lambda: O.area_weight_matrix_edges(m, inverse=inv))
     out["v2f"] = _try(lambda: O.vertex_to_face_operator(m))
-    return out
+    for fmt in FORMATS:
+        out[f"am_fmt_{fmt}"] = _try(lambda: O.area_weight_matrix(m, format=fmt))
+        out[f"amf_fmt_{fmt}"] = _try(lambda: O.area_weight_matrix_faces(m, format=fmt))
+    # connection Laplacian (complex), orders 1 and 4, cotan and uniform: same moduli as the scalar one, Hermitian
+    try:
+        connv = M.processing.SurfaceConnectionVertices(m)
+        for order in (1, 4):
+            out[f"lapc_cot_{order}"] = _try(lambda: O.laplacian(m, cotan=True, connection=connv, order=order))
+        out["lapc_uni_4"] = _try(lambda: O.laplacian(m, cotan=False, connection=connv, order=4))
+    except Exception as e:  # noqa
+        out["lapc_cot_1"] = out["lapc_cot_4"] = out["lapc_uni_4"] = f"err:Other({type(e).__name__})"
+    return done()
 
 
 _CACHE = {}
 
 
 def impl_observe(case):
-    obs = observe(case["t"], case["V"], case["X"], case["extra"])
+    obs = observe(case["t"], case["V"], case["X"], case["extra"], rep=case.get("rep", "vec"))
     _CACHE.clear(); _CACHE["case"] = case; _CACHE["obs"] = obs
     return obs
 
@@ -151,8 +188,16 @@ def _area(a, b, c):
     return U.fsqrt(U.vnorm2(U.vcross(U.vsub(b, a), U.vsub(c, a)))) / 2
 
 
+_TOL = {"f": 1.0}     # float32 coordinates are processed in float32 arithmetic
+
+
+def _set_tol(case):
+    _TOL["f"] = 2e4 if case.get("rep") == "float32" else 1.0
+
+
 def _cmp(name, got, exp, cond=1.0):
     """None or message; got/exp numpy arrays"""
+    cond = cond * _TOL["f"]
     if got.shape != exp.shape:
         return f"{name}: shape {got.shape} vs expected {exp.shape}"
     if exp.size == 0: return None
@@ -173,7 +218,7 @@ def _sym_rows(name, A, cond=1.0):
     if A.shape[0] != A.shape[1]:
         return [("shape", f"{name} is not square: {A.shape}")]
     if A.size == 0: return msgs
-    scale = max(1.0, float(np.max(np.abs(A)))) * cond
+    scale = max(1.0, float(np.max(np.abs(A)))) * cond * _TOL["f"]
     if float(np.max(np.abs(A - A.conj().T))) > 1e-9 * scale:
         msgs.append(("symmetric", f"{name} is not symmetric: max |A-A^T| = {float(np.max(np.abs(A - A.T)))}"))
     rs = np.abs(A.sum(axis=1))
@@ -195,10 +240,80 @@ def _border_tag(case):
     return "border" if any((b, a) not in sides for (a, b) in sides) else "closed"
 
 
+def _cmp_rec(key, a, b, cond):
+    """compare two observation records (or error strings) by value"""
+    if isinstance(a, str) or isinstance(b, str):
+        return None if a == b else f"{key}: {a if isinstance(a, str) else 'matrix'} vs {b if isinstance(b, str) else 'matrix'}"
+    return _cmp(key, dense(a), dense(b), cond)
+
+
+def _history(case):
+    """HISTORIES ON ONE MESH OBJECT: operators built a second time on a used mesh (after the first results were overwritten in place)
+    and a third time after the mesh was transformed equal the operators of a fresh mesh."""
+    from .c07 import _apply_move, CACHES, PRESERVED, drop_caches
+    out = []
+    kind, V, X, extra, h = case["t"], case["V"], case["X"], case["extra"], case["hist"]
+    rep = case.get("rep", "vec")
+    fresh = _obs(case)
+    m = U.build_mesh(kind, V, X, rep)
+    observe(kind, V, X, extra, mesh=m, mutate=True)
+    # STATE SHARED BETWEEN INSTANCES: all operators of ANOTHER mesh are built in between; nothing may change for this one
+    from .c07 import DECOY
+    dV, dX = DECOY[kind]
+    if kind == "surf": dX = [f for f in dX if len(f) == 3]
+    observe(kind, dV, dX, extra, mutate=True)
+    o2 = observe(kind, V, X, extra, mesh=m)
+    for key, rec in o2.items():
+        if key in ("E", "bases", "_alias") or key not in fresh: continue
+        msg = _cmp_rec(key, rec, fresh[key], COND.get(key, 10.0))
+        if msg:
+            out.append(_finding(f"C08/history/second-build/{key}", f"{key}: built a second time on the same mesh (first result overwritten in place by the caller) "
+                                "differs from the operator of a fresh mesh", msg))
+    if o2.get("_alias"): out.append(_finding("C08/alias/vertex-coordinates-modified", "building the operators modified the vertex coordinates", ""))
+    _apply_move(m, h["move"])
+    V3 = [[float(c) for c in m.vertices[i]] for i in range(len(V))]
+    # the operators only READ the name-keyed caches ('cotan', 'area', 'volume', vertex 'normals' + corner 'angles' for the connection):
+    # by design a move does not invalidate them; the caller drops those the move did not preserve (public container API)
+    dropped = set(CACHES) - PRESERVED[h["move"]["kind"]]
+    drop_caches(m, dropped)
+    o3 = observe(kind, V3, X, extra, mesh=m)
+    f3 = observe(kind, V3, X, extra)
+    for key, rec in o3.items():
+        if key in ("E", "bases", "_alias") or key not in f3: continue
+        msg = _cmp_rec(key, rec, f3[key], COND.get(key, 10.0) * 10)
+        if msg:
+            out.append(_finding(f"C08/history/after-move/{key}", f"{key}: rebuilt after the mesh was transformed (caches not preserved by the move dropped by the "
+                                "caller), differs from the operator of a fresh mesh", f"move {h['move']} dropped {sorted(dropped)}: {msg}"))
+    return out
+
+
 def oracle(case):
     out = []
     kind, V, X = case["t"], case["V"], case["X"]
+    _set_tol(case)
     obs = _obs(case)
+    if obs.get("_alias"): out.append(_finding("C08/alias/vertex-coordinates-modified", "building the operators modified the vertex coordinates", ""))
+    if case.get("hist"): out += _history(case)
+    # ---- option `format` of the mass matrices: same matrix in every sparse format
+    for fam, base in (("am", "am_00"), ("amf", "amf_0"), ("vm", "vm_00"), ("vmc", "vmc_00")):
+        for fmt in FORMATS:
+            k = f"{fam}_fmt_{fmt}"
+            if k in obs and base in obs:
+                msg = _cmp_rec(k, obs[k], obs[base], 1.0)
+                if msg: out.append(_finding(f"C08/{fam}/format/{fmt}", f"mass matrix with format='{fmt}' differs from the default format", msg))
+    # ---- connection (complex) vertex Laplacian: Hermitian, same moduli as the scalar Laplacian (phases only), for every order
+    for k, basek in (("lapc_cot_1", "lap_cot"), ("lapc_cot_4", "lap_cot"), ("lapc_uni_4", "lap_uni")):
+        if k in obs and basek in obs:
+            if isinstance(obs[k], str) or isinstance(obs[basek], str):
+                if isinstance(obs[k], str) and not isinstance(obs[basek], str):
+                    out.append(_finding(f"C08/{k}/raises", f"{k} raised {obs[k]}", ""))
+                continue
+            Lc, L0 = dense(obs[k]), dense(obs[basek])
+            cnd = COND.get(basek, 10.0)
+            if Lc.shape != L0.shape or _cmp(k, Lc, Lc.conj().T, cnd):
+                out.append(_finding(f"C08/{k}/hermitian", "connection Laplacian is not Hermitian", _cmp(k, Lc, Lc.conj().T, cnd) or "shape"))
+            elif _cmp(k, np.abs(Lc), np.abs(L0), cnd):
+                out.append(_finding(f"C08/{k}/moduli", "connection Laplacian does not have the moduli of the scalar Laplacian", _cmp(k, np.abs(Lc), np.abs(L0), cnd)))
     P = [U.fvec(p) for p in V]
     nV = len(V)
     E = [tuple(e) for e in obs["E"]]
@@ -336,11 +451,12 @@ def oracle(case):
             pa, pb, pc = (np.array(V[i], dtype=float) for i in f)
             n = np.cross(pb - pa, pc - pa); n = n / np.linalg.norm(n)
             Xb, Yb = np.array(bases[t][:3]), np.array(bases[t][3:])
-            if abs(np.dot(Xb, Xb) - 1) > 1e-9 or abs(np.dot(Yb, Yb) - 1) > 1e-9 or abs(np.dot(Xb, Yb)) > 1e-9 or np.linalg.norm(np.cross(Xb, Yb) - n) > 1e-9:
+            e9 = 1e-9 * _TOL["f"]
+            if abs(np.dot(Xb, Xb) - 1) > e9 or abs(np.dot(Yb, Yb) - 1) > e9 or abs(np.dot(Xb, Yb)) > e9 or np.linalg.norm(np.cross(Xb, Yb) - n) > e9:
                 add("grad/basis", "face basis of the connection is not a direct orthonormal tangent basis", f"face {t}"); break
             tang = a - np.dot(a, n) * n
             rec = g[t].real * Xb + g[t].imag * Yb
-            if np.linalg.norm(rec - tang) > 1e-9 * cond * max(1.0, np.linalg.norm(a)):
+            if np.linalg.norm(rec - tang) > 1e-9 * _TOL["f"] * cond * max(1.0, np.linalg.norm(a)):
                 add("grad/affine", "gradient of an affine function is not its constant tangential gradient", f"face {t}: {rec} vs {tang}"); break
     # ---- mass matrices
     base = np.zeros(nV)
@@ -435,7 +551,7 @@ def _check_mass(add, key, A, expdiag, total, what):
         add(f"{key}/positive", f"{key} has a non-positive diagonal entry", float(np.min(d))); return
     m = _cmp(key, np.diag(d), np.diag(expdiag), 100.0)
     if m: add(f"{key}/values", f"{key} entries are not the lumped {what}s (with the inverse/sqrt option applied)", m)
-    if total is not None and abs(float(d.sum()) - total) > 1e-9 * max(1.0, total):
+    if total is not None and abs(float(d.sum()) - total) > 1e-9 * _TOL["f"] * max(1.0, total):
         add(f"{key}/sum", f"{key} entries do not sum to the stated multiple of the total {what}", f"{float(d.sum())} vs {total}")
 
 
@@ -562,6 +678,7 @@ def compare(case, model, impl):
     if model.startswith("bad-request") or model.startswith("err:"):
         return f"model rejected the request: {model}"
     exp = from_model(case, model)
+    _set_tol(case)
     for key, e in exp.items():
         got = impl.get(key)
         if got is None: return f"implementation observation lacks {key}"
@@ -599,9 +716,22 @@ def _well_conditioned(case):
     return len(es) == len(case["X"]) and all(P[a] != P[b] for a, b in case["X"])
 
 
+REPS = ["vec", "list", "tuple", "ndarray", "float32", "intlist", "int64", "int32", "int16"]
+
+
 def _decorate(rng, case):
     case["extra"] = {"ew": [rng.randint(1, 40) / 8 for _ in range(7)],
                      "affine": [rng.randint(-16, 16) / 8 for _ in range(4)]}
+    rep = rng.choice(REPS) if rng.random() < 0.5 else "vec"
+    if rep in ("intlist", "int64", "int32", "int16"):
+        case["V"] = [[float(round(c * 64)) for c in p] for p in case["V"]]
+    case["rep"] = rep
+    if rng.random() < 0.35:
+        sz = max(abs(c) for p in case["V"] for c in p) or 1.0
+        mv = {"kind": rng.choice(["translate", "rotate", "scale", "vertex"]), "t": [rng.randint(-24, 24) / 8 for _ in range(3)],
+              "s": rng.choice([0.5, 2.0, 4.0]), "q": list(rng.choice(U.QUATS[1:])), "i": rng.randrange(1 << 16),
+              "d": [rng.choice([-1, 1]) * sz / 64, rng.choice([-1, 1]) * sz / 128, sz / 64]}
+        case["hist"] = {"move": mv}
     return case
 
 
@@ -643,11 +773,13 @@ def classify(case, obs):
     ks.append("size:" + ("1" if n == 1 else "2-8" if n <= 8 else "9-32" if n <= 32 else "33-128" if n <= 128 else ">128"))
     ks += [f"err:{k}" for k, v in obs.items() if isinstance(v, str)]
     ks += [f"op:{k}" for k, v in obs.items() if isinstance(v, dict)]
+    ks.append("rep:" + case.get("rep", "vec"))
+    if case.get("hist"): ks += ["hist:second-build", "hist:move-" + case["hist"]["move"]["kind"]]
     return ks
 
 
 def describe(case):
-    return {"t": case["t"], "tag": case.get("tag"), "nV": len(case["V"]), "nX": len(case["X"])}
+    return {"t": case["t"], "tag": case.get("tag"), "nV": len(case["V"]), "nX": len(case["X"]), "rep": case.get("rep"), "hist": case.get("hist")}
 
 
 def shrink(case, still):
@@ -718,7 +850,43 @@ def translate():
         body.append("/-- `laplacian_op.laplacian`: the loop `for (i,j,v) in [...]` as (local vertex i, local vertex j, local corner whose weight is used) -/\n"
                     "def lapLoop : List (Nat × Nat × Nat) := [" + ", ".join(f"({r[0]}, {r[1]}, {r[2]})" for r in rows) + "]\n\n")
         return str(rows)
-    sites = [T.site("laplacian_op.py:cotan_edge_diagonal (opposite local index)", diag_expr),
+    def lap_writes():
+        """the four coefficient writes per weighted edge in `laplacian` (scalar branch): (row, col, sign) over {i, j}"""
+        tree, _ = T.load("mouette/operators/laplacian_op.py")
+        fn = T.find_def(tree, "laplacian")
+        loop = None
+        for node in ast.walk(fn):
+            if isinstance(node, ast.For) and isinstance(node.iter, ast.List) and len(node.iter.elts) == 3 \
+                    and all(isinstance(e, ast.Tuple) and len(e.elts) == 3 for e in node.iter.elts):
+                loop = node
+        if loop is None: raise T.TranslateError("laplacian: edge loop not found")
+        tn = [e.id for e in loop.target.elts]            # (i, j, v)
+
+        def write(st):
+            if not (isinstance(st, ast.Assign) and isinstance(st.targets[0], ast.Tuple) and isinstance(st.value, ast.Tuple) and len(st.value.elts) == 4):
+                raise T.TranslateError("laplacian: statement is not `rows[_c], cols[_c], coeffs[_c], _c = r, c, x, _c+1`")
+            tg = st.targets[0].elts
+            if [getattr(getattr(t, "value", None), "id", getattr(t, "id", None)) for t in tg] != ["rows", "cols", "coeffs", "_c"]:
+                raise T.TranslateError("laplacian: unexpected write targets")
+            r, c, x, _ = st.value.elts
+            sgn = 1
+            if isinstance(x, ast.UnaryOp) and isinstance(x.op, ast.USub): sgn, x = -1, x.operand
+            if not (isinstance(x, ast.Name) and x.id == tn[2] and isinstance(r, ast.Name) and isinstance(c, ast.Name)):
+                raise T.TranslateError("laplacian: coefficient is not ±v or indices are not names")
+            return (tn.index(r.id), tn.index(c.id), sgn)
+        ws = []
+        for st in loop.body:
+            if isinstance(st, ast.Assign): ws.append(write(st))
+            elif isinstance(st, ast.If):
+                if not st.orelse: raise T.TranslateError("laplacian: connection test without scalar branch")
+                ws += [write(x) for x in st.orelse]
+            else: raise T.TranslateError("laplacian: unexpected statement in the edge loop")
+        if len(ws) != 4: raise T.TranslateError(f"laplacian: expected 4 writes per edge in the scalar branch, got {len(ws)}")
+        body.append("/-- `laplacian_op.laplacian`, scalar branch: the writes per weighted edge as (row ∈ {0=i,1=j}, col, sign of v) -/\n"
+                    "def lapWrites : List (Nat × Nat × Int) := [" + ", ".join(f"({a}, {b}, {c})" for a, b, c in ws) + "]\n\n")
+        return str(ws)
+    sites = [T.site("laplacian_op.py:laplacian (four coefficient writes per edge)", lap_writes),
+             T.site("laplacian_op.py:cotan_edge_diagonal (opposite local index)", diag_expr),
              T.site("laplacian_op.py:laplacian (edge/opposite-corner loop table)", lap_loop)]
     body.append("end Mouette.Generated.C08\n")
     if all(s["ok"] for s in sites):
